@@ -59,6 +59,8 @@ type linIntervalCtx struct {
 	bps    map[int][]int // base term id -> sorted break points (bit positions)
 	memo   map[int]*ratLin
 	bounds *Bounds
+	small  map[int]Ival
+	smallMode bool
 	err    error
 }
 
@@ -161,6 +163,12 @@ func (li *linIntervalCtx) lin(t *Term) *ratLin {
 			r.addAtom(t, big.NewRat(1, 1))
 		}
 	case OMod, ODiv:
+		// small quotients/remainders (carries) are better kept as atoms with their interval
+		if iv := li.bounds.Interval(t); li.smallMode && iv.lo != nil && iv.hi != nil && new(big.Int).Sub(iv.hi, iv.lo).Cmp(bi(3)) <= 0 {
+			li.small[t.id] = iv
+			r.addAtom(t, big.NewRat(1, 1))
+			break
+		}
 		if x, off, lim, ok := window(t); ok {
 			if lim >= 0 {
 				r = li.fieldsLin(x, off, off+lim, off)
@@ -192,7 +200,18 @@ func (li *linIntervalCtx) lin(t *Term) *ratLin {
 func (li *linIntervalCtx) atomBounds(a *Term) (lo, hi *big.Int) {
 	if a.op == OUF && a.name == "fld$" {
 		w, _ := a.args[2].ConstInt()
-		return bi(0), new(big.Int).Sub(pow2(int(w)), bi(1))
+		from, _ := a.args[1].ConstInt()
+		hi = new(big.Int).Sub(pow2(int(w)), bi(1))
+		// a non-negative base bounded above bounds its high fields
+		if iv := li.bounds.Interval(a.args[0]); iv.lo != nil && iv.lo.Sign() >= 0 && iv.hi != nil {
+			if h := floorDiv(iv.hi, pow2(int(from))); h.Cmp(hi) < 0 {
+				hi = h
+			}
+		}
+		return bi(0), hi
+	}
+	if iv, ok := li.small[a.id]; ok {
+		return iv.lo, iv.hi
 	}
 	if a.op == OMod {
 		return bi(0), new(big.Int).Sub(a.k, bi(1))
@@ -208,6 +227,16 @@ func (li *linIntervalCtx) atomBounds(a *Term) (lo, hi *big.Int) {
 
 // LinIntervalProve decides goals of the form A <= B, A < B and conjunctions thereof.
 func LinIntervalProve(facts []*Term, goal *Term) (bool, string) {
+	ok, why := linIntervalProve(facts, goal, false)
+	if !ok {
+		if ok2, why2 := linIntervalProve(facts, goal, true); ok2 {
+			return true, why2 + " (carries kept as atoms)"
+		}
+	}
+	return ok, why
+}
+
+func linIntervalProve(facts []*Term, goal *Term, smallMode bool) (bool, string) {
 	switch goal.op {
 	case OAnd:
 		for _, g := range goal.args {
@@ -224,7 +253,7 @@ func LinIntervalProve(facts []*Term, goal *Term) (bool, string) {
 	for _, f := range flattenFacts(facts) {
 		b.Learn(f)
 	}
-	li := &linIntervalCtx{bps: map[int][]int{}, memo: map[int]*ratLin{}, bounds: b}
+	li := &linIntervalCtx{bps: map[int][]int{}, memo: map[int]*ratLin{}, bounds: b, small: map[int]Ival{}, smallMode: smallMode}
 	e := Sub(goal.args[1], goal.args[0])
 	li.collect(e, map[int]bool{})
 	for id, bp := range li.bps {
